@@ -6,7 +6,7 @@
  ],
  "kind": "K2",
  "tier": "thorough",
- "timeout": 1200,
+ "timeout": 3000,
  "extra_src": [
   "stubs/mem_ranges.c"
  ],
